@@ -2,7 +2,7 @@
 # usage: tools/seed_regress.sh [seed-id...]   — apply every kept seeded change to /repo in turn, run the check of the
 # property it breaks (quick tier), restore /repo; prints one line per seed: caught-with-replay / caught-no-input / MISSED.
 cd /verif
-IDS="$*"; [ -z "$IDS" ] && IDS=$(ls seeded)
+IDS="$*"; [ -z "$IDS" ] && IDS=$(ls -d seeded/*/ | xargs -n1 basename)
 for ID in $IDS; do
   P=$(python3 -c "import json;print(json.load(open('seeded/$ID/meta.json'))['breaks_property'])")
   if ! git -C /repo apply /verif/seeded/$ID/patch.diff 2>/dev/null; then echo "$ID $P PATCH-DOES-NOT-APPLY"; continue; fi
